@@ -35,7 +35,7 @@ for (leaf, h, tis_us, set_) in cases:
     machine.set_state(leaf)
     # time in state
     machine._PoupoolModel__state_time = A.datetime.now() - datetime.timedelta(microseconds=tis_us)
-    Exact.value = h
+    Exact.value = h / 10.0  # levels in tenths of a percent: the sensor value is a float
     tank.actor_inbox.items.clear(); filt.actor_inbox.items.clear()
     tank.do_cancel()
     n0 = len(w.log)
@@ -68,9 +68,13 @@ def gen_cases(rng, n, cfg):
             for h in marks:
                 if 0 <= h <= 100:
                     for tis in (0, 7199_000_000, 7200_000_000, 7201_000_000, 21599_000_000, 21600_000_000, 21601_000_000):
-                        cases.append((leaf, h, tis, set_))
+                        cases.append((leaf, h * 10, tis, set_))
+                    # non-integer readings just around every threshold (the sensor delivers a float)
+                    for d in (-6, -5, -4, -1, 1, 4, 5, 6):
+                        if 0 <= h * 10 + d <= 1000:
+                            cases.append((leaf, h * 10 + d, 0, set_))
     while len(cases) < n:
-        cases.append((rng.choice(["fill", "low", "normal", "high"]), rng.randint(0, 100), rng.choice([0, rng.randint(0, 30000) * 1_000_000]), rng.choice(["eco", "overflow"])))
+        cases.append((rng.choice(["fill", "low", "normal", "high"]), rng.randint(0, 1000), rng.choice([0, rng.randint(0, 30000) * 1_000_000]), rng.choice(["eco", "overflow"])))
     return cases
 
 
@@ -100,7 +104,8 @@ def decisions_correspondence(chk, n=None):
     lines = []
     for (leaf, h, tis, set_) in cases:
         lv = cfg[set_]
-        lines.append(f"{leaf} {h} {tis} {cfg['tooLow']} {lv['low']} {lv['high']} {cfg['hyst']}")
+        # the model compares integers: levels and thresholds are both given in tenths of a percent
+        lines.append(f"{leaf} {h} {tis} {cfg['tooLow'] * 10} {lv['low'] * 10} {lv['high'] * 10} {cfg['hyst'] * 10}")
     model = lean.driver("Poupool/Drivers/Tank.lean", lines)
     bad = [(c, r, m) for c, r, m in zip(cases, real["acts"], model) if r != m]
     dist = {}
@@ -203,7 +208,7 @@ def latency_monitor(chk):
             if dead:
                 r.sys.adc.fault = True
             else:
-                r.sys.set_tank_level(rng.choice([0, 5, 9]))
+                r.sys.set_tank_level(rng.choice([0, 5, 9, 9.5, 9.7, 9.9]))
             r.run_prompt(60)
             th = [e[0] for e in r.world.log if e[1] == "publish" and e[2][0] == "/status/filtration/state" and e[2][1] == "halt" and e[0] > t0]
             lat = (th[0] - t0) / 1e6 if th else None
